@@ -61,17 +61,43 @@ Fixpoint known_class_free (p : pstate) (os : list op) : Prop :=
   end.
 End Statement.
 
-(* NOT proved.  Missing: (1) the Core invariant (Core/Inv*.v) re-proved for this persist-mode
-   copy of the model; (2) restore (snapshot s) preserves it — which needs the SEMANTIC flattening
-   lemma "an unchanged recorded support (ProofsFlatten.ok_edge) means an unchanged value", i.e.
-   the invariant applied to the expanded dependencies; ProofsFlatten.flatten_sound is the
-   structural half. *)
+(* the durabilities an operation may install: the four levels (durabilities are numbers in the
+   model; the kernels treat everything >= 3 as NEVER_CHANGE) *)
+Definition dur_op (o : op) : Prop :=
+  match o with OSet _ _ (Some d) => d <= 3 | _ => True end.
+
+(* the persisted functions only call persisted functions: no dependency is flattened away *)
+Definition persisted_closed (prog : qkey -> body) (pfam : N -> bool) : Prop :=
+  forall q q', pfam (fst q) = true -> calls (prog q) q' -> pfam (fst q') = true.
+
+(* The full statement.  PROVED (Persist/PTop.v, Props/C26.v):
+   - for histories without ORestore (C26_results_no_restore), every program and pfam;
+   - with the extra hypothesis [persisted_closed prog pfam] (C26_results_partial).
+   NOT proved in general.  Missing: restore (snapshot s) re-establishes the invariant when a
+   persisted function q calls a non-persisted function d.  The restored memo of q then has the
+   LEAVES of d's memo as edges (ProofsFlatten: flatten_closed, flatten_sound_snapshot are the
+   structural half), and d's memo is gone.  Two things are then needed that the invariant
+   PInv.DInv (observer-relative changed_at stamps, as in Core/DInv.v) does not give:
+   (a) the flattened edges are d's reads at the revision where D'S memo was verified, which
+       need not be the revision where q's memo was verified (d may have been re-executed on
+       its own since): a covering clause with one revision per expanded node, and, for the
+       revisions in between, that a function leaf whose stamp is old NOW had an old stamp THEN;
+   (b) when d is executed again after the restore, in a revision later than q's verified_at,
+       and q is then validated through its flattened edges, q owes d's new memo
+       "m_dur q <= m_dur d": this follows from the observer clause only if d's new changed_at
+       is old, i.e. bounded by the current stamps of the leaves below d.
+   Both are monotonicity-of-stamps facts across time.  Core/DInv.v has the clause for it
+   (mo_stamp / ext_mono: changed_at is bounded by the current stamp of a direct read, and grows);
+   it speaks about the memos of the direct reads, which a restored database does not have, and
+   re-establishing it for a re-executed restored memo needs "the first changed leaf is read
+   again" through the inlined trace of the expanded dependencies. *)
 Definition C26_results_full_statement : Prop :=
   forall (prog : qkey -> body) (noeq : qkey -> bool) (pfam : N -> bool) (fams : list N)
          (lru0 : N -> lru_state) (rank : qkey -> nat) (NF : nat),
     calls_below prog rank -> (forall q, (rank q < NF)%nat) ->
     forall fuel sfuel, (forall p, (rank p < fuel)%nat) -> (forall p, (S (rank p) < sfuel)%nat) ->
     forall iv idur ops,
+      (forall i, idur i <= 3) -> Forall dur_op ops ->
       wf_ops false false ops ->
       known_class_free prog noeq pfam fams lru0 sfuel fuel (pinit iv idur lru0) ops ->
       results_ok prog noeq pfam fams lru0 NF sfuel fuel (pinit iv idur lru0) ops.
